@@ -236,14 +236,26 @@ def features(ctx, rep):
             I.global_obj(st, G[2:]); put(st, G, 0, BV.const(15 ^ mv, 32))
             fbv = I.V.bv('f', 32)
             outs = I.run(fs, [fbv], st)
-            ok = len(outs) == 1
-            if ok:
-                r = outs[0].ret; res = 15 ^ mv
-                want = [fbv.bits[j] for j in range(32) if (res >> j) & 1]
+            res = 15 ^ mv
+            want = [fbv.bits[j] for j in range(32) if (res >> j) & 1]
+            ok = len(outs) >= 1
+            if len(outs) == 1 and outs[0].ret.concrete() is None:
+                r = outs[0].ret
                 if len(want) == 1: ok = r.bits[0] == bnot(want[0])
                 else:
                     zi = r.zero_iff
                     ok = zi is not None and zi[0] == 'allzero' and not zi[2] and sorted(map(repr, zi[1])) == sorted(map(repr, want))
+            else:
+                # partitioned form (early returns / per-bit tests): exactly one partition answers "supported", it is constrained by exactly
+                # "every reserved bit of f is 0", and every other partition answers "not supported"
+                yes = [o for o in outs if o.ret.concrete() == 1]; no = [o for o in outs if o.ret.concrete() == 0]
+                ok = len(yes) == 1 and len(yes) + len(no) == len(outs)
+                if ok:
+                    C = yes[0].state.cons
+                    ok = all(C.reduce(b) == 0 for b in want)
+                    E = Constraints()
+                    for b in want: E.add(b, 0)
+                    ok = ok and all(E.reduce(mk(m_, c_)) == 0 for m_, c_ in C.rows.values())
             rep.check(ok, 'supported(f) iff f & %d == 0' % (15 ^ mv), loc_of(fs), 'features_supported with reserved=%d' % (15 ^ mv),
                       detail=str(outs[0].ret.zero_iff)[:200] if outs else None, key='FEAT-PRED|res%d' % mv)
         for f in P.fns('make_features'):
